@@ -35,11 +35,12 @@ import (
 // macVerdict recomputes the authenticator of a SCION/UDP packet as received.
 // present: the packet carries an authenticator option with the given SPI and the
 // time service's algorithm; valid: its MAC equals the recomputed one.
-func macVerdict(raw []byte, key []byte, wantSPI uint32) (present, valid bool) {
+func macVerdict(raw []byte, keyOf func(p *scionPkt) []byte, wantSPI uint32) (present, valid bool) {
 	p := parseSCION(raw)
 	if !p.ok || !p.isUDP || !p.hasE2E {
 		return false, false
 	}
+	key := keyOf(p)
 	opt, err := p.e2e.FindOption(slayers.OptTypeAuthenticator)
 	if err != nil || len(opt.OptData) != scion.PacketAuthOptDataLen {
 		return false, false
@@ -85,7 +86,17 @@ func c13World(t *testing.T, r *simcore.Run) any {
 	}
 	path := w.mkPath(0, segLens, 1, scCliIA, scSrvIA)
 	laddr, raddr := w.udpAddrs()
-	key := w.dc.hostHostKey(scSrvIA, scCliIA, scSrvIP, scCliIP)
+	// the host-to-host key of a packet is determined by the server-side and client-side
+	// SCION addresses it carries (whichever direction it travels)
+	keyOf := func(p *scionPkt) []byte {
+		src, _ := netip.AddrFromSlice(p.scn.RawSrcAddr)
+		dst, _ := netip.AddrFromSlice(p.scn.RawDstAddr)
+		if p.scn.DstIA == scSrvIA {
+			return w.dc.hostHostKey(p.scn.DstIA, p.scn.SrcIA, dst.Unmap().String(), src.Unmap().String())
+		}
+		return w.dc.hostHostKey(p.scn.SrcIA, p.scn.DstIA, src.Unmap().String(), dst.Unmap().String())
+	}
+	key := keyOf
 	cl := &client.SCIONClient{Log: quietLog(), DSCP: cliDSCP, InterleavedMode: tp.Bool(1, 3, "interleaved")}
 	if cliAuth {
 		cl.Auth.Enabled = true
@@ -122,7 +133,27 @@ func c13World(t *testing.T, r *simcore.Run) any {
 			spiPat = []byte{0x00, 0x02, 0x00, 0x7b}
 		}
 		at := bytes.Index(mut, spiPat)
-		switch tp.Intn(7, "tkind") {
+		switch tp.Intn(9, "tkind") {
+		case 7: // a hop-by-hop extension in front of the end-to-end extension, MAC damaged
+			if at < 0 {
+				return false, nil
+			}
+			kind = "hbh-inserted+mac-bit"
+			if rb := c13Rebuild(p, "", nil, 0, true, true); rb != nil {
+				mut = rb
+			} else {
+				return false, nil
+			}
+		case 8: // the request re-addressed to another host of the server's AS, sealed under the original host's key
+			if at < 0 || !p.toSrv {
+				return false, nil
+			}
+			kind = "readdressed-under-other-hosts-key"
+			if rb := c13Rebuild(p, "10.0.0.9", keyOf(p), scion.PacketAuthSPIClient, false, false); rb != nil {
+				mut = rb
+			} else {
+				return false, nil
+			}
 		case 0:
 			if at < 0 {
 				return false, nil
@@ -429,4 +460,68 @@ func init() {
 		World:      c13World,
 		NonTrivial: func(r *simcore.Run) bool { return r.Counts["replies"] >= 2 },
 	}
+}
+
+// c13Rebuild re-serialises an authenticated SCION/UDP packet: optionally with another
+// SCION destination host and a MAC recomputed under the given key, optionally with a
+// hop-by-hop extension in front of the end-to-end extension, optionally with one MAC bit
+// flipped afterwards.
+func c13Rebuild(p *scionPkt, newDstHost string, key []byte, spi uint32, addHBH, breakMAC bool) []byte {
+	if !p.isUDP || !p.hasE2E {
+		return nil
+	}
+	opt, err := p.e2e.FindOption(slayers.OptTypeAuthenticator)
+	if err != nil || len(opt.OptData) != scion.PacketAuthOptDataLen {
+		return nil
+	}
+	s := p.scn
+	if newDstHost != "" {
+		if err := s.SetDstAddr(addr.HostIP(netip.MustParseAddr(newDstHost))); err != nil {
+			return nil
+		}
+	}
+	buffer := gopacket.NewSerializeBuffer()
+	opts := gopacket.SerializeOptions{ComputeChecksums: true, FixLengths: true}
+	if err := gopacket.Payload(p.pld).SerializeTo(buffer, opts); err != nil {
+		return nil
+	}
+	u := p.udp
+	u.SetNetworkLayerForChecksum(&s)
+	s.NextHdr = slayers.L4UDP
+	if err := u.SerializeTo(buffer, opts); err != nil {
+		return nil
+	}
+	data := append([]byte(nil), opt.OptData...)
+	nopt := &slayers.EndToEndOption{OptType: slayers.OptTypeAuthenticator, OptData: data, OptAlign: [2]uint8{4, 2}}
+	if key != nil {
+		scion.PreparePacketAuthOpt(nopt, spi, scion.PacketAuthAlgorithm)
+		aux := make([]byte, spao.MACBufferSize)
+		if _, err := spao.ComputeAuthCMAC(spao.MACInput{Key: key, Header: slayers.PacketAuthOption{EndToEndOption: nopt},
+			ScionLayer: &s, PldType: slayers.L4UDP, Pld: buffer.Bytes()}, aux, scion.PacketAuthOptMAC(nopt)); err != nil {
+			return nil
+		}
+	}
+	if breakMAC {
+		nopt.OptData[scion.PacketAuthMetadataLen+3] ^= 0x10
+	}
+	e := slayers.EndToEndExtn{}
+	e.NextHdr = slayers.L4UDP
+	e.Options = []*slayers.EndToEndOption{nopt}
+	if err := e.SerializeTo(buffer, opts); err != nil {
+		return nil
+	}
+	s.NextHdr = slayers.End2EndClass
+	if addHBH {
+		h := slayers.HopByHopExtn{}
+		h.NextHdr = slayers.End2EndClass
+		h.Options = []*slayers.HopByHopOption{{OptType: slayers.OptTypePadN, OptData: make([]byte, 2)}}
+		if err := h.SerializeTo(buffer, opts); err != nil {
+			return nil
+		}
+		s.NextHdr = slayers.HopByHopClass
+	}
+	if err := s.SerializeTo(buffer, opts); err != nil {
+		return nil
+	}
+	return append([]byte(nil), buffer.Bytes()...)
 }
